@@ -76,7 +76,9 @@ def gen_synthetic(run, i):
             r, c = rng.randrange(h), rng.randrange(w)
             data[b, r:r + 6, c:c + 9] = np.nan
     elif pattern == 'band1-empty-corner':
-        data[0, :min(h, 32), :min(w, 32)] = np.nan
+        # every other time over the whole height: the bounding window of the FIRST band's valid pixels then is smaller than that
+        # of the dataset mask (valid where any band is), and whole tiles hold data in the other bands only
+        data[0, :(h if (i // 21) % 2 == 0 else min(h, 32)), :min(w - 4, 32)] = np.nan
     elif pattern == 'diagonal-swath':
         # a diagonal swath of valid data (a rotated footprint): tiles that meet the bounding window of the valid data but hold no
         # valid pixel at all
